@@ -655,7 +655,78 @@ def check_paths(case, rec):
         shutil.rmtree(tmp, ignore_errors=True)
 
 
-PARTS = {"decl": check_decl, "pair": check_pair, "fault": check_fault, "extend": check_extend, "paths": check_paths}
+# ------------------------------------------------------------------------------------ the libraries named more than once
+
+OVERLAPS = {
+    "plain": (),
+    "same_library_again": ("mpilot.libraries.eems.csv",),
+    "same_library_first": ("mpilot.libraries.eems.csv", "mpilot.libraries.eems.basic"),
+    "package_and_its_module": ("mpilot.libraries.eems.csv.io",),
+    "all_three_again": ("mpilot.libraries.eems.basic", "mpilot.libraries.eems.csv", "mpilot.libraries.eems.fuzzy"),
+}
+
+
+def overlap_cases():
+    for how in sorted(OVERLAPS):
+        for where in ("before", "after"):
+            for model in ("wellformed", "dangling_reference", "missing_parameter"):
+                for via in ("api", "cli"):
+                    yield {"how": how, "where": where, "model": model, "via": via}
+
+
+def check_overlap(case, rec):
+    """Naming a library twice, or a package together with one of its own modules, selects the same commands once: the
+    model is accepted or rejected -- with its specific error -- exactly as under the plain selection."""
+    from click.testing import CliRunner
+    from mpilot.cli.mpilot import main
+    from mpilot.program import EEMS_CSV_LIBRARIES, Program
+
+    extra = OVERLAPS[case["how"]]
+    libs = tuple(extra) + tuple(EEMS_CSV_LIBRARIES) if case["where"] == "before" else tuple(EEMS_CSV_LIBRARIES) + tuple(extra)
+    text = {"wellformed": 'R = EEMSRead(InFileName = "input.csv", InFieldName = a)\nC = Copy(InFieldName = R)\n',
+            "dangling_reference": 'R = EEMSRead(InFileName = "input.csv", InFieldName = a)\nC = Copy(InFieldName = Nowhere)\n',
+            "missing_parameter": 'R = EEMSRead(InFileName = "input.csv")\n'}[case["model"]]
+    want = {"wellformed": None, "dangling_reference": "ResultDoesNotExist", "missing_parameter": "MissingParameters"}[case["model"]]
+    sig = "overlap|%s|%s" % (case["how"], case["model"])
+    rec.label("overlap:" + case["how"])
+    rec.nontrivial_case(case)
+    tmp = tempfile.mkdtemp(prefix="vcheck-c12-")
+    try:
+        prepare_dir(tmp, SP.CSV)
+        if case["via"] == "api":
+            try:
+                Program.from_source(text, libraries=libs, working_dir=tmp).run()
+                got = None
+            except Exception as exc:
+                got = type(exc).__name__
+            if got != want:
+                return [Failure(sig + "|got:%s" % got, "libraries %r: expected %s\n%s" % (libs, want or "acceptance", text))]
+            return []
+        if case["where"] == "after":
+            return []  # the command-line tool puts -l libraries in front of its defaults
+        path = os.path.join(tmp, "model.mpt")
+        with open(path, "w") as f:
+            f.write(text)
+        args = ["eems-csv", path]
+        for lib in extra:
+            args += ["-l", lib]
+        res = CliRunner().invoke(main, args)
+        try:
+            stderr = res.stderr
+        except Exception:
+            stderr = res.output
+        if res.exception is not None and not isinstance(res.exception, SystemExit):
+            return [Failure(sig + "|cli_traceback:%s" % type(res.exception).__name__, repr(res.exception))]
+        if (res.exit_code == 0) != (want is None):
+            return [Failure(sig + "|cli_exit:%s" % res.exit_code, "expected %s; stderr %r" % (want or "success", stderr[-300:]))]
+        if want == "ResultDoesNotExist" and "Nowhere" not in stderr:
+            return [Failure(sig + "|cli_message", "stderr %r does not name the missing result" % stderr[-300:])]
+        return []
+    finally:
+        shutil.rmtree(tmp, ignore_errors=True)
+
+
+PARTS = {"decl": check_decl, "pair": check_pair, "fault": check_fault, "extend": check_extend, "paths": check_paths, "overlap": check_overlap}
 
 
 def setup_parent(ctx):
@@ -667,5 +738,6 @@ def run_shard(ctx, rec):
     drive_enum(ctx, rec, "decl", decl_cases(), check_decl, exhaustive=True, max_novel=40)
     drive_enum(ctx, rec, "pair", pair_cases(), check_pair, exhaustive=True, max_novel=12)
     drive_enum(ctx, rec, "paths", path_cases(), check_paths, exhaustive=True, max_novel=12)
+    drive_enum(ctx, rec, "overlap", overlap_cases(), check_overlap, exhaustive=True, max_novel=6)
     drive(ctx, rec, "fault", fault_cases(), check_fault, ctx.n(160, 4000))
     drive(ctx, rec, "extend", fault_cases(), check_extend, ctx.n(400, 8000))
